@@ -310,3 +310,17 @@ def bisect_names(fn: ast.FunctionDef) -> dict:
     out["counter"] = t.left.id if isinstance(t, ast.Compare) and isinstance(t.left, ast.Name) else None
     _BISECT_CACHE[id(fn)] = out
     return out
+
+
+def height_closures(fn: ast.FunctionDef, hchain: str = "self.bhe.b.H"):
+    """closures nested in GHE.size that write the trial height from one of their parameters (the sizing objective):
+    {closure name: index of that parameter}.  A call of such a closure is, for the analyses of size(), a write of the
+    height followed by a simulation, and its value is the excess at that height."""
+    out = {}
+    for n in fn.body:
+        if isinstance(n, ast.FunctionDef):
+            ps = [a.arg for a in n.args.args]
+            for s_ in ast.walk(n):
+                if isinstance(s_, ast.Assign) and any(attr_chain(t) == hchain for t in s_.targets) and isinstance(s_.value, ast.Name) and s_.value.id in ps:
+                    out[n.name] = ps.index(s_.value.id)
+    return out
